@@ -612,14 +612,18 @@ enum Disp {
     DropEarly, // drop the handle while the thread is still running
     DropLate,  // drop long after the thread finished
     DropRace,
+    /// drop while the thread is inside its epilogue (between "result stored" and the hand-shake CAS):
+    /// the thread is held there by delays at hook points 304/305
+    DropEpilogue,
 }
-const DISPS: [Disp; 6] = [
+const DISPS: [Disp; 7] = [
     Disp::JoinEarly,
     Disp::JoinLate,
     Disp::JoinRace,
     Disp::DropEarly,
     Disp::DropLate,
     Disp::DropRace,
+    Disp::DropEpilogue,
 ];
 fn disp_name(d: Disp) -> &'static str {
     match d {
@@ -629,6 +633,7 @@ fn disp_name(d: Disp) -> &'static str {
         Disp::DropEarly => "drop-early",
         Disp::DropLate => "drop-late",
         Disp::DropRace => "drop-race",
+        Disp::DropEpilogue => "drop-in-epilogue",
     }
 }
 
@@ -752,6 +757,14 @@ fn run_one<T: Res>(idx: usize, seed: u64, disp: Disp, panics: bool, r: &mut Rng,
             sleep_us(600 + r.below(600)); // let the epilogue and the kernel exit path run
         }
         Disp::JoinRace | Disp::DropRace => sleep_us(r.below(60)),
+        Disp::DropEpilogue => {
+            let mut k = 0u32;
+            while DONE[idx].load(Ordering::Acquire) == 0 && k < 400_000 {
+                sleep_us(10);
+                k += 1;
+            }
+            sleep_us(r.below(500));
+        }
         _ => {}
     }
     let _ = early;
@@ -870,6 +883,11 @@ fn cell_batch<T: Res>(seed: u64, n: usize, disp: Disp, panics: bool, delays: boo
     let before = snapshot();
     marker::begin(1, disp as i64, i64::from(panics));
     set_delays(r, delays);
+    if disp == Disp::DropEpilogue {
+        POINT_DELAY_US[4].store(250, Ordering::Relaxed);
+        POINT_DELAY_US[5].store(250, Ordering::Relaxed);
+        POINT_DELAY_US[8].store(250, Ordering::Relaxed); // panic entry
+    }
     let mut o = Out {
         spawned: 0,
         joined_some: 0,
@@ -997,8 +1015,13 @@ fn scen_latewake(seed: u64, n: usize) {
 /// heap-owning results with dropped handles (separate: candidate defect "result not dropped")
 fn scen_heapres(seed: u64, n: usize) {
     let mut r = Rng(seed);
-    for d in [Disp::DropEarly, Disp::DropLate, Disp::DropRace] {
+    for d in [Disp::DropEarly, Disp::DropLate, Disp::DropRace, Disp::DropEpilogue, Disp::DropEpilogue] {
         let before = snapshot();
+        set_delays(&mut r, d == Disp::DropRace);
+        if d == Disp::DropEpilogue {
+            POINT_DELAY_US[4].store(250, Ordering::Relaxed);
+            POINT_DELAY_US[5].store(250, Ordering::Relaxed);
+        }
         let mut o = Out {
             spawned: 0,
             joined_some: 0,
@@ -1009,6 +1032,7 @@ fn scen_heapres(seed: u64, n: usize) {
         for i in 0..n {
             run_one::<HeapRes>(i % MAXT, seed.wrapping_add(i as u64), d, false, &mut r, &mut o);
         }
+        set_delays(&mut r, false);
         if !quiesce() {
             println!("@@INCONCLUSIVE threads did not all exit (heapres)");
             return;
@@ -1147,7 +1171,7 @@ fn scen_churn(seed: u64, reps: usize, per: usize) {
             spawn_err: 0,
         };
         for i in 0..per {
-            let d = DISPS[(i + rep) % 6];
+            let d = DISPS[(i + rep) % 7];
             let p = (i / 6 + rep) % 3 == 0;
             if p {
                 panicked += 1;
